@@ -73,6 +73,24 @@ PROPS = {
         "level_note": "RNGs handed to the library are counting ChaCha20 streams owned by the harness",
         "technique": "explicit-state grid enumeration (E1) with structural reference identities and seed-pair differentials",
     },
+    "C08": {
+        "rule": "E1 over values: every coefficient (evaluation) vector in {0,1,-1,r1}^len, len <= 4 (quick) plus the shape alphabet, x every trimmed degree bound; oracle commit(p) == naive_msm(published key elements, coefficients) for plain and shifted parts (MAR, SON, IPA, PST over its term map, KZG, MLP, streaming time and space committers, Hyrax rows); all unordered pairs of the len <= 2 vectors x scalars {0,1,-1,r2}^2 for additivity; commit(0) = identity; hash-based: root and metadata == independent recomputation (row layout, Reed-Solomon by naive evaluation / public encode for Brakedown, Blake2s column hashes, Merkle tree), equal polynomials equal roots, distinct polynomials distinct roots; distinct = (scheme, bound?, verdict)",
+        "assumptions": TRUSTED,
+        "require": {"classes": ["matches-naive-msm", "additive", "root-matches"], "dims": {"scheme": ["MAR", "SON", "IPA", "PST", "KZG", "STR", "MLP", "HYR", "LIG", "MLL", "BRK"]}},
+        "level_text": "exhaustive enumeration of all small coefficient vectors over a 4-letter alphabet on the real committers, each compared with a naive double-and-add recomputation from the published key (never VariableBaseMSM), plus exhaustive pairwise additivity and an independent Merkle-root recomputation for the hash-based schemes",
+        "design_ref": "DESIGN.md section 4 C08",
+        "level_note": "non-hiding commitments (hiding terms are C07's); Hyrax rows are compared after removing the blinding recorded in the returned state",
+        "technique": "explicit-state exhaustive value enumeration (E1) against a naive reference implementation",
+    },
+    "C09": {
+        "rule": "E1: KZG-family SRS for every max_degree 1..64 (with and without G2 powers): element counts, every consecutive pair of G1/gamma powers and every negative G2 power checked by pairings, prepared elements, prefix agreement with a larger setup of the same seed, dependence on the seed; IPA (max_degree 0..64) and Hyrax (0..8 variables) generators == independent derivation from the protocol seed, distinct, non-identity, prime order, RNG-independent, every trim prefix; Marlin and Sonic trim on the full grid D<=5 (7 thorough) x supported 1..D+1 x hiding 0..D+2 x bound lists (None, [], singletons, sorted/unsorted pairs, duplicates, triples over 0..D+1): every returned element compared with the parameter element it must be, degree reports, supported / supported+1 commit probes, out-of-range refused; cross-trim interop; prepared tables; MultilinearPC table identities; streaming SRS; distinct = (scheme, family, verdict)",
+        "assumptions": TRUSTED,
+        "require": {"classes": ["srs-consistent", "generators-ok", "trim-faithful", "trim-refused", "interop-accept", "prepared-ok"], "dims": {"scheme": ["MAR", "SON", "IPA", "HYR", "MLP", "STR"]}},
+        "level_text": "bounded exhaustive enumeration of setup sizes and trim requests on the real key generators, with element-wise pairing / equality identities against the published parameters as oracle",
+        "design_ref": "DESIGN.md section 4 C09",
+        "level_note": "PST13 parameters are C15's; linear-code keys carry no group elements",
+        "technique": "explicit-state grid enumeration (E1) with element-wise algebraic identities",
+    },
     "C10": {
         "rule": "E3 single-fault neighbourhood of accepting transcripts: every verifier-visible component (each commitment part, degree-bound label, value, point coordinate, each proof field and vector element, each verifier-key element incl. shift elements) x replacement alphabet {identity/zero, generator/one, generic, +G/+1, corresponding component of another transcript}; oracle = independent implementation of the published relation with the same challenge derivation; distinct = (scheme, component class, relation verdict, library decision class)",
         "assumptions": TRUSTED + ["Brakedown's row encoding is taken from the public LinearEncode::encode (its linearity and length are checked under C13)"],
